@@ -30,6 +30,7 @@ const (
 	OpUnset   = "U" // UnSetPkgLevels()
 	OpTrigger = "W" // TriggerWriter()
 	OpYield   = "Y" // runtime.Gosched() (perturbation only)
+	OpSleep   = "S" // time.Sleep(Us microseconds) (places a log call relative to the writer's cycle; never a verdict)
 )
 
 // Op is one step of a goroutine's sequence (or of a barrier's change list).
@@ -64,6 +65,8 @@ type Op struct {
 	Fm      int   `json:"fm,omitempty"`
 	Echo    int   `json:"e,omitempty"`
 	EchoRep int   `json:"er,omitempty"`
+	// OpSleep: microseconds.
+	Us int `json:"us,omitempty"`
 	// OpPkg: package name -> level ("pkga", "pkgb", or an unrelated name).
 	Pkgs map[string]int `json:"pk,omitempty"`
 }
@@ -84,7 +87,10 @@ type Scenario struct {
 	Sched string `json:"sched"`
 	// Adapter pace: 0 none, 1 Gosched per write, 2 sleep 50us every 64th write,
 	// 3 sleep 1ms every 512th write.
+	// 4 sleep PaceUs microseconds on EVERY write (a slow sink: file on a busy
+	// disk, network). Only for small scenarios: Validate bounds calls*PaceUs.
 	AdapterPace int `json:"pace,omitempty"`
+	PaceUs      int `json:"pace_us,omitempty"`
 	// Init is applied right after Start (before the first phase).
 	Init []Op `json:"init,omitempty"`
 	// Goroutines is the number of producers (length of every Phase.G).
@@ -101,6 +107,31 @@ type Scenario struct {
 
 // SilenceUs is the pause before Shutdown after which a free-running writer must have written everything.
 const SilenceUs = 2_000_000
+
+// MaxSlowAdapterUs bounds the total time a pace-4 adapter may spend sleeping
+// (a quarter of SilenceUs: the silence clause stays sound whatever the schedule).
+const MaxSlowAdapterUs = SilenceUs / 4
+
+// LogCalls is the number of log calls of the scenario (collected tracer lines and echoes included).
+func (s *Scenario) LogCalls() int {
+	n := 0
+	for _, ph := range s.Phases {
+		for g, seq := range ph.G {
+			e := Expander{G: g}
+			for _, op := range seq {
+				for _, ev := range e.Expand(op) {
+					switch ev.Kind {
+					case OpLines:
+						n += ev.Times
+					case OpTracer:
+						n += len(ev.Trace) + ev.EchoBefore + ev.EchoAfter
+					}
+				}
+			}
+		}
+	}
+	return n
+}
 
 // Stutter parameters: after DelayUs, N times { stop for StopMs; run for RunUs }.
 type Stutter struct {
@@ -125,12 +156,16 @@ type Write struct {
 type Result struct {
 	Writes []Write `json:"writes"`
 	// number of adapter calls seen when Shutdown was called / had returned / 200ms later
-	AtShutdownCall   int    `json:"at_shutdown_call"`
-	AtShutdownReturn int    `json:"at_shutdown_return"`
-	After200ms       int    `json:"after_200ms"`
-	Stage            string `json:"stage"` // "done", or where the child's watchdog found it stuck
-	Hung             bool   `json:"hung,omitempty"`
-	Stacks           string `json:"stacks,omitempty"`
+	AtShutdownCall   int `json:"at_shutdown_call"`
+	AtShutdownReturn int `json:"at_shutdown_return"`
+	After200ms       int `json:"after_200ms"`
+	// pace 4 only (statistics, never a verdict): start/end of every adapter call and the
+	// moment the last log call of the scenario returned, microseconds since process start
+	WriteTimes [][2]int64 `json:"wt,omitempty"`
+	LastLogUs  int64      `json:"last_log_us,omitempty"`
+	Stage      string     `json:"stage"` // "done", or where the child's watchdog found it stuck
+	Hung       bool       `json:"hung,omitempty"`
+	Stacks     string     `json:"stacks,omitempty"`
 }
 
 // Line is one expanded log call.
@@ -234,7 +269,7 @@ func (e *Expander) Expand(op Op) []Event {
 			ev.EchoAfter = rep
 		}
 		return []Event{ev}
-	case OpLevel, OpPkg, OpUnset, OpTrigger, OpYield:
+	case OpLevel, OpPkg, OpUnset, OpTrigger, OpYield, OpSleep:
 		return []Event{{Kind: op.K, Op: op}}
 	}
 	return nil
@@ -252,6 +287,14 @@ func (s *Scenario) Validate() error {
 	}
 	if s.Goroutines < 1 {
 		return fmt.Errorf("no goroutines")
+	}
+	if s.AdapterPace == 4 {
+		if s.PaceUs < 1 || s.PaceUs > 5000 {
+			return fmt.Errorf("pace 4 needs pace_us in 1..5000")
+		}
+		if calls := s.LogCalls(); calls*s.PaceUs > MaxSlowAdapterUs {
+			return fmt.Errorf("pace 4: %d log calls x %d us exceed %d us of adapter time", calls, s.PaceUs, MaxSlowAdapterUs)
+		}
 	}
 	for _, op := range s.Init {
 		if !IsChange(op.K) {
@@ -286,6 +329,10 @@ func (s *Scenario) Validate() error {
 				case OpLevel, OpPkg, OpUnset:
 					has = true
 				case OpTrigger, OpYield:
+				case OpSleep:
+					if op.Us < 0 || op.Us > 1_000_000 {
+						return fmt.Errorf("phase %d: sleep of %d us", pi, op.Us)
+					}
 				default:
 					return fmt.Errorf("phase %d: unknown op %q", pi, op.K)
 				}
